@@ -108,9 +108,18 @@ fstart = "! start "
 fend   = "! end "
 
 _newlibrary = None
+_static_helpers = None  # Names of helpers defined in this file.
 def set_library(library):
-    global _newlibrary
+    global _newlibrary, _static_helpers
     _newlibrary = library
+    # Discard helpers created for a library processed earlier in this process.
+    if _static_helpers is None:
+        _static_helpers = (set(CHelpers), set(FHelpers))
+    else:
+        for helpers, names in zip((CHelpers, FHelpers), _static_helpers):
+            for name in list(helpers):
+                if name not in names:
+                    del helpers[name]
 
 
 def add_all_helpers():
